@@ -8,6 +8,7 @@ import (
 	"os"
 	"sort"
 	"strings"
+	"sync"
 )
 
 // State is one symbolic program state.
@@ -19,6 +20,8 @@ type State struct {
 	pc       []*Term
 	closures map[*types.Var]*ast.FuncLit
 	locks    map[string]*Term
+	ghost    map[string]*Term
+	defers   []deferred
 }
 
 func (s *State) clone() *State {
@@ -32,7 +35,14 @@ func (s *State) clone() *State {
 	for k, v := range s.closures {
 		n.closures[k] = v
 	}
+	if s.ghost != nil {
+		n.ghost = make(map[string]*Term, len(s.ghost))
+		for k, v := range s.ghost {
+			n.ghost[k] = v
+		}
+	}
 	n.pc = append([]*Term(nil), s.pc...)
+	n.defers = append([]deferred(nil), s.defers...)
 	return n
 }
 
@@ -53,16 +63,16 @@ type Obligation struct {
 	Goal   *Term
 	Axioms []*Term
 	// results
-	Status  string // discharged | trivial | failed
-	Solver  string
-	Time    float64
-	Answer  string
-	Model   string
-	Query   string
-	ex      *Exec
-	Inputs  []inputSym
-	Expect  string // "unsat" normally; "sat" for vacuity checks
-	Vacuity bool
+	Status     string // discharged | trivial | failed
+	Solver     string
+	Time       float64
+	Answer     string
+	Model      string
+	Query      string
+	ex         *Exec
+	Inputs     []inputSym
+	Expect     string // "unsat" normally; "sat" for vacuity checks
+	Vacuity    bool
 	smallModel bool
 }
 
@@ -79,7 +89,8 @@ type retOutcome struct {
 }
 
 type deferred struct {
-	call *ast.CallExpr
+	call  *ast.CallExpr
+	frame *Frame
 }
 
 type Frame struct {
@@ -118,47 +129,55 @@ type funSig struct {
 
 // Exec verifies one function (the "unit").
 type Exec struct {
-	p        *Prog
-	top      *FuncInfo
-	frames   []*Frame
-	loops    []*loopCtx
-	obls     []*Obligation
-	axioms   []*Term
-	axiomSet map[*Term]bool
-	nfresh   int
-	consts   map[string]Sort
-	funs     map[string]funSig
-	strLits  map[string]*Term
-	strOrder []string
-	spec     int
-	notes    []string
-	abstract map[string]int
-	links    map[string]*heapLink
-	boxed    map[*types.Var]bool
-	boxDone  map[*ast.BlockStmt]bool
-	names    map[string]int
-	alloc0   *Term
-	hasMod   bool
-	modLocs  []modLoc
-	modEl    []modElems
-	specRec  map[*types.Func]int
-	inlining map[*types.Func]int
-	inputs   []inputSym
-	fatal    string
-	curStmt  ast.Node
-	ghostDec []*Term
-	topReturns int
-	loopEntry  []*State
-	rangeIdx   []*Term
-	framed     map[*Term]bool
-	fnSyms     map[string]*types.Func
-	replayText *Term
-	replayHeap *Term
+	p           *Prog
+	top         *FuncInfo
+	frames      []*Frame
+	loops       []*loopCtx
+	obls        []*Obligation
+	axioms      []*Term
+	axiomSet    map[*Term]bool
+	nfresh      int
+	consts      map[string]Sort
+	funs        map[string]funSig
+	strLits     map[string]*Term
+	strOrder    []string
+	spec        int
+	notes       []string
+	abstract    map[string]int
+	links       map[string]*heapLink
+	boxed       map[*types.Var]bool
+	boxDone     map[*ast.BlockStmt]bool
+	names       map[string]int
+	alloc0      *Term
+	hasMod      bool
+	modHeaps    map[string]bool
+	boundVars   map[*types.Var]*Term
+	quantLinked map[string]bool
+	zeroLinksQ  map[string]func() []*Term
+	modLocs     []modLoc
+	modEl       []modElems
+	specRec     map[*types.Func]int
+	inlining    map[*types.Func]int
+	inputs      []inputSym
+	fatal       string
+	curStmt     ast.Node
+	ghostDec    []*Term
+	topReturns  int
+	assumed     []string
+	anchorCache map[*Term][]*Term
+	anchorMu    sync.Mutex
+	contFor     map[ast.Stmt][]ast.Stmt
+	loopEntry   []*State
+	rangeIdx    []*Term
+	framed      map[*Term]bool
+	fnSyms      map[string]*types.Func
+	replayText  *Term
+	replayHeap  *Term
 	replayTerms []*Term
-	mathSites  int
-	unfolded  map[*Term]bool
-	zeroLinks map[string]func(r *Term) *Term
-	extUsed   map[string]int
+	mathSites   int
+	unfolded    map[*Term]bool
+	zeroLinks   map[string]func(r *Term) *Term
+	extUsed     map[string]int
 }
 
 type heapLink struct {
@@ -167,7 +186,7 @@ type heapLink struct {
 }
 
 func newExec(p *Prog, fi *FuncInfo) *Exec {
-	return &Exec{p: p, top: fi, axiomSet: map[*Term]bool{}, consts: map[string]Sort{}, funs: map[string]funSig{}, strLits: map[string]*Term{}, abstract: map[string]int{}, links: map[string]*heapLink{}, boxed: map[*types.Var]bool{}, boxDone: map[*ast.BlockStmt]bool{}, names: map[string]int{}, specRec: map[*types.Func]int{}, inlining: map[*types.Func]int{}, fnSyms: map[string]*types.Func{}, framed: map[*Term]bool{}}
+	return &Exec{p: p, top: fi, axiomSet: map[*Term]bool{}, consts: map[string]Sort{}, funs: map[string]funSig{}, strLits: map[string]*Term{}, abstract: map[string]int{}, links: map[string]*heapLink{}, boxed: map[*types.Var]bool{}, boxDone: map[*ast.BlockStmt]bool{}, names: map[string]int{}, specRec: map[*types.Func]int{}, inlining: map[*types.Func]int{}, fnSyms: map[string]*types.Func{}, framed: map[*Term]bool{}, contFor: map[ast.Stmt][]ast.Stmt{}, anchorCache: map[*Term][]*Term{}, boundVars: map[*types.Var]*Term{}, quantLinked: map[string]bool{}, zeroLinksQ: map[string]func() []*Term{}}
 }
 
 type unsupportedErr struct{ msg string }
@@ -255,6 +274,23 @@ func (x *Exec) instLinks(arr, r *Term, depth int) {
 		x.instLinks(arr.Args[2], r, depth+1)
 	case arr.IsLeaf():
 		if r.Bound {
+			// a read under a quantifier: state the heap's frame facts once, universally
+			if !x.quantLinked[arr.Op] {
+				x.quantLinked[arr.Op] = true
+				x.nfresh++
+				q := BoundVar(fmt.Sprintf("r!q%d", x.nfresh), SInt)
+				if zq, ok := x.zeroLinksQ[arr.Op]; ok {
+					for _, a := range zq() {
+						x.axiom(a)
+					}
+				} else if z, ok := x.zeroLinks[arr.Op]; ok {
+					x.axiom(ForallPat([]*Term{q}, z(q), Select(arr, q)))
+				}
+				if l, ok := x.links[arr.Op]; ok {
+					x.axiom(ForallPat([]*Term{q}, Implies(l.keep(q), Eq(Select(arr, q), Select(l.pred, q))), Select(arr, q)))
+					x.instLinks(l.pred, r, depth+1)
+				}
+			}
 			return
 		}
 		if z, ok := x.zeroLinks[arr.Op]; ok {
@@ -287,6 +323,9 @@ func (x *Exec) frameCheck(st *State, name string, r *Term, at ast.Node) {
 	if !x.hasMod {
 		return
 	}
+	if x.modHeaps[name] {
+		return
+	}
 	alts := []*Term{Ge(r, x.alloc0)}
 	for _, m := range x.modLocs {
 		if m.heap == name {
@@ -296,7 +335,7 @@ func (x *Exec) frameCheck(st *State, name string, r *Term, at ast.Node) {
 	for _, m := range x.modEl {
 		for _, h := range m.heaps {
 			if h == name {
-				alts = append(alts, And(Le(slBase(m.sl), r), Lt(r, Add(slBase(m.sl), slLen(m.sl)))))
+				alts = append(alts, And(Le(slBase(m.sl), r), Lt(r, Add(slBase(m.sl), slCap(m.sl)))))
 			}
 		}
 	}
@@ -421,6 +460,14 @@ func (x *Exec) typeInv(t types.Type, v *Term, st *State, depth int) *Term {
 			cs = append(cs, x.typeInv(u.Field(i).Type(), getField(ss, v, i), st, depth+1))
 		}
 		return And(cs...)
+	case *types.Array:
+		if ss := x.p.Reg.structOf(t); ss != nil {
+			var cs []*Term
+			for i := range ss.Fields {
+				cs = append(cs, x.typeInv(u.Elem(), getField(ss, v, i), st, depth+1))
+			}
+			return And(cs...)
+		}
 	case *types.Interface:
 		if x.p.closedWorld(t) {
 			alts := []*Term{Eq(v, ifaceNil)}
@@ -470,6 +517,14 @@ func (x *Exec) zero(t types.Type) *Term {
 			vals[i] = x.zero(u.Field(i).Type())
 		}
 		return mkStruct(ss, vals)
+	case *types.Array:
+		if ss := x.p.Reg.structOf(t); ss != nil {
+			vals := make([]*Term, len(ss.Fields))
+			for i := range vals {
+				vals[i] = x.zero(u.Elem())
+			}
+			return mkStruct(ss, vals)
+		}
 	}
 	srt := x.p.Reg.sortOf(t)
 	name := "zero!" + string(srt)
@@ -497,7 +552,7 @@ func (x *Exec) strLen(s *Term) *Term {
 			return IntLit(int64(len(lit)))
 		}
 	}
-	return x.app("str.len", SInt, s)
+	return x.app("s.len", SInt, s)
 }
 
 func (x *Exec) strConcat(a, b *Term) *Term {
@@ -508,9 +563,9 @@ func (x *Exec) strConcat(a, b *Term) *Term {
 	if b == empty {
 		return a
 	}
-	r := x.app("str.cat", SStr, a, b)
+	r := x.app("s.cat", SStr, a, b)
 	if !r.Bound {
-		x.axiom(Eq(x.app("str.len", SInt, r), Add(x.strLen(a), x.strLen(b))))
+		x.axiom(Eq(x.app("s.len", SInt, r), Add(x.strLen(a), x.strLen(b))))
 		// neutral element
 		x.axiom(Implies(Eq(a, empty), Eq(r, b)))
 		x.axiom(Implies(Eq(b, empty), Eq(r, a)))
@@ -578,6 +633,16 @@ func (x *Exec) oblige(st *State, kind, label string, goal *Term, at ast.Node) {
 	}
 	if label == "" {
 		label = x.nodeText(at)
+	}
+	if kind == "unreachable" && x.top.Contract != nil {
+		txt := x.nodeText(at)
+		for _, frag := range x.top.Contract.AssumeUnreach {
+			if strings.Contains(txt, frag) {
+				x.assumed = append(x.assumed, fmt.Sprintf("%s assumes the panic site %q unreachable", x.top.Name(), frag))
+				st.assume(goal)
+				return
+			}
+		}
 	}
 	o := &Obligation{Name: x.oblName(kind, label), Kind: kind, Func: x.top.Name(), Goal: goal, ex: x, Expect: "unsat"}
 	if at != nil {
@@ -717,6 +782,29 @@ func (x *Exec) merge(n int, states []*State) *State {
 		}
 	}
 	out.alloc = pick(func(s *State) *Term { return s.alloc })
+	for _, s := range live[1:] {
+		if len(s.defers) != len(live[0].defers) {
+			x.unsupported(nil, "defer registered on only some of the paths that merge here")
+		}
+		for i := range s.defers {
+			if s.defers[i].call != live[0].defers[i].call || s.defers[i].frame != live[0].defers[i].frame {
+				x.unsupported(nil, "different deferred calls on merging paths")
+			}
+		}
+	}
+	gk := map[string]bool{}
+	for _, s := range live {
+		for k := range s.ghost {
+			gk[k] = true
+		}
+	}
+	for _, k := range sortedKeys(gk) {
+		k := k
+		if out.ghost == nil {
+			out.ghost = map[string]*Term{}
+		}
+		out.ghost[k] = pick(func(s *State) *Term { return x.ghostGet(s, k) })
+	}
 	for k := range out.closures {
 		for _, s := range live[1:] {
 			if s.closures[k] != out.closures[k] {
@@ -737,3 +825,22 @@ func sortedVarNames(m map[*types.Var]*Term) []*types.Var {
 }
 
 var _ = token.NoPos
+
+// ghost counters: integer specification state updated by ghostset clauses
+func (x *Exec) ghostGet(st *State, name string) *Term {
+	if st.ghost != nil {
+		if v, ok := st.ghost[name]; ok {
+			return v
+		}
+	}
+	sym := "ghost!" + sanitize(name) + "@0"
+	x.consts[sym] = SInt
+	return Sym(sym, SInt)
+}
+
+func (x *Exec) ghostSet(st *State, name string, v *Term) {
+	if st.ghost == nil {
+		st.ghost = map[string]*Term{}
+	}
+	st.ghost[name] = v
+}
